@@ -212,6 +212,15 @@ def check_convert(rep: Report, prog: Program) -> None:
         fn = applier.node
         defs = defs_of(fn)
         accs = {acc_name} if acc_name else set()
+    # `result = magnitude` (a helper's return value, once inlined): the accumulated variable is the one copied from
+    grew = True
+    while grew:
+        grew = False
+        for nm in list(accs):
+            for d in defs.get(nm, []):
+                if isinstance(d, ast.Name) and d.id not in accs:
+                    accs.add(d.id)
+                    grew = True
     mag_names: Set[str] = set(accs)
     # names holding a magnitude: anything assigned from `<x>.magnitude`
     for nm, ds in defs.items():
@@ -545,106 +554,224 @@ class _NoVerdict(Exception):
     pass
 
 
-def _probe(e: ast.AST, env: Dict[str, object], exps: Tuple[int, ...], helpers: Dict[str, ast.FunctionDef], depth: int = 0) -> object:
-    """Evaluate a side-effect-free predicate over a dimension whose exponents are `exps` (a three-point abstraction of
-    the dimensions _splat files factors under).  Only the node kinds listed here are interpreted; anything else has no verdict."""
-    if isinstance(e, ast.Constant):
-        return e.value
-    if isinstance(e, ast.Name):
-        if e.id in env:
-            return env[e.id]
-        raise _NoVerdict(e.id)
-    if isinstance(e, ast.Attribute) and e.attr == "exponents" and isinstance(e.value, ast.Name) and env.get(e.value.id) == "<dimension>":
-        return exps
-    if isinstance(e, ast.UnaryOp) and isinstance(e.op, ast.Not):
-        return not _probe(e.operand, env, exps, helpers, depth)
-    if isinstance(e, ast.UnaryOp) and isinstance(e.op, ast.USub):
-        return -_probe(e.operand, env, exps, helpers, depth)  # type: ignore[operator]
-    if isinstance(e, ast.BoolOp):
-        vals = [_probe(v, env, exps, helpers, depth) for v in e.values]
-        return all(vals) if isinstance(e.op, ast.And) else any(vals)
-    if isinstance(e, ast.Compare) and len(e.ops) == 1:
-        a, b = _probe(e.left, env, exps, helpers, depth), _probe(e.comparators[0], env, exps, helpers, depth)
-        op = e.ops[0]
-        table = {ast.Lt: lambda: a < b, ast.LtE: lambda: a <= b, ast.Gt: lambda: a > b, ast.GtE: lambda: a >= b,  # type: ignore[operator]
-                 ast.Eq: lambda: a == b, ast.NotEq: lambda: a != b}
-        if type(op) in table:
-            return table[type(op)]()
-        raise _NoVerdict(ast.unparse(e))
-    if isinstance(e, ast.IfExp):
-        return _probe(e.body if _probe(e.test, env, exps, helpers, depth) else e.orelse, env, exps, helpers, depth)
-    if isinstance(e, (ast.GeneratorExp, ast.ListComp)) and len(e.generators) == 1 and isinstance(e.generators[0].target, ast.Name):
-        g = e.generators[0]
-        seq = _probe(g.iter, env, exps, helpers, depth)
-        out = []
-        for x in seq:  # type: ignore[attr-defined]
-            env2 = dict(env)
-            env2[g.target.id] = x  # type: ignore[union-attr]
-            if all(_probe(c, env2, exps, helpers, depth) for c in g.ifs):
-                out.append(_probe(e.elt, env2, exps, helpers, depth))
-        return out
-    if isinstance(e, ast.Call) and isinstance(e.func, ast.Name) and not e.keywords:
-        f = e.func.id
-        if f in ("any", "all", "sum", "min", "max", "abs", "len", "tuple", "list") and len(e.args) == 1:
-            v = _probe(e.args[0], env, exps, helpers, depth)
-            return {"any": any, "all": all, "sum": sum, "min": min, "max": max, "abs": abs, "len": len, "tuple": tuple, "list": list}[f](v)  # type: ignore[operator]
-        h = helpers.get(f)
-        if h is not None and depth < 2 and len(h.args.args) == len(e.args):
-            body = [st for st in h.body if not (isinstance(st, ast.Expr) and isinstance(st.value, ast.Constant))]
-            if len(body) == 1 and isinstance(body[0], ast.Return) and body[0].value is not None:
-                env2 = {a.arg: (env.get(x.id) if isinstance(x, ast.Name) else _probe(x, env, exps, helpers, depth)) for a, x in zip(h.args.args, e.args)}
-                return _probe(body[0].value, env2, exps, helpers, depth + 1)
-    raise _NoVerdict(ast.unparse(e)[:60])
+_DIM = "<dimension>"
+
+
+class SignProbe:
+    """Partial evaluation of the planner's sign computation for one abstract dimension.  The only unknown is the dimension a
+    factor is filed under, represented by its exponents (one of three sign patterns); every name whose `.exponents` is read,
+    or that is handed to a helper predicate, stands for it.  Statements are walked in order with an environment of the
+    locals whose value is known; an `if` with a known test follows its arm, an unknown test walks both and keeps what agrees.
+    Only side-effect-free expression kinds are interpreted; everything else is simply unknown."""
+
+    def __init__(self, helpers: Dict[str, ast.FunctionDef], exps: Tuple[int, ...]) -> None:
+        self.helpers = helpers
+        self.exps = exps
+        self.sites: List[Tuple[ast.AST, str, object]] = []      # (tuple node, sign variable, value or _NoVerdict)
+
+    # ---------------------------------------------------------------- expressions
+    def ev(self, e: ast.AST, env: Dict[str, object], depth: int = 0) -> object:
+        if isinstance(e, ast.Constant):
+            return e.value
+        if isinstance(e, ast.Name):
+            if e.id in env:
+                return env[e.id]
+            raise _NoVerdict(e.id)
+        if isinstance(e, ast.Attribute) and e.attr == "exponents" and isinstance(e.value, ast.Name) and env.get(e.value.id, _DIM) == _DIM:
+            return self.exps
+        if isinstance(e, ast.UnaryOp) and isinstance(e.op, ast.Not):
+            return not self.ev(e.operand, env, depth)
+        if isinstance(e, ast.UnaryOp) and isinstance(e.op, ast.USub):
+            return -self.ev(e.operand, env, depth)  # type: ignore[operator]
+        if isinstance(e, ast.BoolOp):
+            vals = [self.ev(v, env, depth) for v in e.values]
+            return all(vals) if isinstance(e.op, ast.And) else any(vals)
+        if isinstance(e, ast.Compare) and len(e.ops) == 1:
+            x, y = self.ev(e.left, env, depth), self.ev(e.comparators[0], env, depth)
+            if x == _DIM or y == _DIM:
+                raise _NoVerdict("comparison of the dimension itself")
+            table = {ast.Lt: lambda: x < y, ast.LtE: lambda: x <= y, ast.Gt: lambda: x > y, ast.GtE: lambda: x >= y,  # type: ignore[operator]
+                     ast.Eq: lambda: x == y, ast.NotEq: lambda: x != y}
+            if type(e.ops[0]) in table:
+                return table[type(e.ops[0])]()
+            raise _NoVerdict(ast.unparse(e)[:50])
+        if isinstance(e, ast.IfExp):
+            return self.ev(e.body if self.ev(e.test, env, depth) else e.orelse, env, depth)
+        if isinstance(e, ast.BinOp) and isinstance(e.op, (ast.Mult, ast.Add, ast.Sub)):
+            x, y = self.ev(e.left, env, depth), self.ev(e.right, env, depth)
+            if isinstance(x, (int, bool)) and isinstance(y, (int, bool)):
+                return {ast.Mult: x * y, ast.Add: x + y, ast.Sub: x - y}[type(e.op)]
+            raise _NoVerdict(ast.unparse(e)[:50])
+        if isinstance(e, (ast.GeneratorExp, ast.ListComp)) and len(e.generators) == 1 and isinstance(e.generators[0].target, ast.Name):
+            g = e.generators[0]
+            out = []
+            for x in self.ev(g.iter, env, depth):  # type: ignore[attr-defined]
+                env2 = dict(env)
+                env2[g.target.id] = x  # type: ignore[union-attr]
+                if all(self.ev(c, env2, depth) for c in g.ifs):
+                    out.append(self.ev(e.elt, env2, depth))
+            return out
+        if isinstance(e, ast.Call) and isinstance(e.func, ast.Name) and not e.keywords:
+            f = e.func.id
+            if f in ("any", "all", "sum", "min", "max", "abs", "len", "tuple", "list", "bool") and len(e.args) == 1:
+                v = self.ev(e.args[0], env, depth)
+                return {"any": any, "all": all, "sum": sum, "min": min, "max": max, "abs": abs, "len": len, "tuple": tuple, "list": list, "bool": bool}[f](v)  # type: ignore[operator]
+            h = self.helpers.get(f)
+            if h is not None and depth < 2 and len(h.args.args) == len(e.args) and not h.decorator_list:
+                env2: Dict[str, object] = {}
+                for a_, x in zip(h.args.args, e.args):
+                    if isinstance(x, ast.Name) and x.id not in env:
+                        env2[a_.arg] = _DIM
+                    else:
+                        env2[a_.arg] = self.ev(x, env, depth)
+                done, val = self.block(h.body, env2, depth + 1, record=False)
+                if done:
+                    return val
+        raise _NoVerdict(ast.unparse(e)[:60])
+
+    # ---------------------------------------------------------------- statements
+    @staticmethod
+    def _assigned(body: List[ast.stmt]) -> Set[str]:
+        return {x.id for st in body for x in ast.walk(st) if isinstance(x, ast.Name) and isinstance(x.ctx, ast.Store)}
+
+    def _record(self, st: ast.AST, env: Dict[str, object], depth: int) -> None:
+        nested = [b for fld in ("body", "orelse", "finalbody") for b in (getattr(st, fld, None) or []) if isinstance(b, ast.stmt)]
+        nested += [b for h in getattr(st, "handlers", []) for b in h.body]
+        skip = {id(x) for b in nested for x in ast.walk(b)}
+        for x in ast.walk(st):
+            if id(x) in skip or not (isinstance(x, ast.Tuple) and len(x.elts) == 4 and isinstance(x.ctx, ast.Load)):
+                continue
+            last = x.elts[3]
+            neg = isinstance(last, ast.UnaryOp) and isinstance(last.op, ast.USub)
+            nm = last.operand if neg else last  # type: ignore[union-attr]
+            if not isinstance(nm, ast.Name):
+                continue
+            try:
+                self.sites.append((x, nm.id, self.ev(nm, env, depth)))
+            except _NoVerdict as ex:
+                self.sites.append((x, nm.id, ex))
+
+    def block(self, body: List[ast.stmt], env: Dict[str, object], depth: int = 0, record: bool = True) -> Tuple[bool, object]:
+        """-> (a return was definitely reached, its value)"""
+        for st in body:
+            if record:
+                self._record(st, env, depth)
+            if isinstance(st, ast.Return):
+                if st.value is None:
+                    return True, None
+                if record:
+                    return True, None      # the walked function's own result is not needed
+                return True, self.ev(st.value, env, depth)
+            if isinstance(st, (ast.Assign, ast.AnnAssign)) and getattr(st, "value", None) is not None:
+                tg = st.targets if isinstance(st, ast.Assign) else [st.target]
+                for t in tg:
+                    if isinstance(t, ast.Name):
+                        try:
+                            env[t.id] = self.ev(st.value, env, depth)  # type: ignore[arg-type]
+                        except _NoVerdict:
+                            env.pop(t.id, None)
+                    else:
+                        for nm in self._assigned([st]):
+                            env.pop(nm, None)
+                continue
+            if isinstance(st, ast.If):
+                try:
+                    t = bool(self.ev(st.test, env, depth))
+                except _NoVerdict:
+                    if not record:
+                        raise
+                    e1, e2 = dict(env), dict(env)
+                    self.block(st.body, e1, depth, record)
+                    self.block(st.orelse, e2, depth, record)
+                    for k in list(env):
+                        if not (k in e1 and k in e2 and e1[k] == e2[k]):
+                            env.pop(k, None)
+                    for k in e1:
+                        if k in e2 and e1[k] == e2[k]:
+                            env[k] = e1[k]
+                    continue
+                done, val = self.block(st.body if t else st.orelse, env, depth, record)
+                if done:
+                    return True, val
+                continue
+            if isinstance(st, (ast.For, ast.While, ast.Try, ast.With)):
+                if not record:
+                    raise _NoVerdict(type(st).__name__)
+                inner = list(getattr(st, "body", [])) + list(getattr(st, "orelse", [])) + list(getattr(st, "finalbody", [])) + \
+                    [b for h in getattr(st, "handlers", []) for b in h.body]
+                dropped = self._assigned(inner) | ({x.id for x in ast.walk(st.target) if isinstance(x, ast.Name)} if isinstance(st, ast.For) else set())
+                for nm in dropped:
+                    env.pop(nm, None)
+                for part in ("body", "orelse", "finalbody"):
+                    self.block(list(getattr(st, part, [])), dict(env) if part != "body" else env, depth, record)
+                for h in getattr(st, "handlers", []):
+                    self.block(h.body, dict(env), depth, record)
+                for nm in dropped:
+                    env.pop(nm, None)
+                continue
+            if isinstance(st, (ast.FunctionDef, ast.ClassDef, ast.AsyncFunctionDef)):
+                continue
+            for nm in self._assigned([st]):
+                env.pop(nm, None)
+        return False, None
+
+
+def _splat_convention(prog: Program) -> bool:
+    """anchor: _splat files a factor of negative exponent under dimension**-1 and any other under its dimension"""
+    sp = prog.func("conversions._splat")
+
+    def norm(x: ast.AST) -> str:
+        return ast.unparse(x).replace(" ", "").replace("(", "").replace(")", "")
+    for node in ast.walk(sp.node):
+        if isinstance(node, (ast.If, ast.IfExp)) and norm(node.test) in ("exponent<0", "0>exponent"):
+            body = node.body if isinstance(node.body, list) else [node.body]
+            orelse = node.orelse if isinstance(node.orelse, list) else [node.orelse]
+            neg = any("dimension**-1" in norm(st) for st in body)
+            pos = any(".dimension" in norm(st) and "**-1" not in norm(st) for st in orelse)
+            if neg and pos:
+                return True
+    return False
 
 
 def check_factor_sign(rep: Report, prog: Program, rid: str = "R05.11") -> None:
     """_splat files a factor in the numerator under its dimension and a factor in the denominator under the inverse of
     its dimension; a dimensionless factor lands under Number either way.  _match_factors and _cancel_factors turn the
-    dimension a factor is filed under back into the exponent its step is applied with (`-1 if <test> else 1`).  The two
-    conventions agree only if the test says +1 for a numerator dimension - Number (all zeros) included - and -1 for
-    its inverse; probed on the three sign patterns a base dimension can be filed under."""
+    dimension a factor is filed under back into the exponent its step is applied with.  The two conventions agree only if
+    that exponent is +1 for a numerator dimension - Number (all zeros) included - and -1 for its inverse; decided by
+    partial evaluation of the sign computation (SignProbe) on the three sign patterns a base dimension can be filed under."""
     mi = prog.module("conversions")
     helpers = {n.name: n for n in mi.tree.body if isinstance(n, ast.FunctionDef)}
-    # anchor: _splat's filing convention
-    sp = prog.func("conversions._splat")
-    conv = False
-    for node in ast.walk(sp.node):
-        if isinstance(node, ast.If) and ast.unparse(node.test).replace(" ", "") in ("exponent<0", "0>exponent"):
-            neg = any(isinstance(x, ast.Subscript) and "dimension**-1" in ast.unparse(x.slice).replace(" ", "").replace("(", "").replace(")", "") for st in node.body for x in ast.walk(st))
-            pos = any(isinstance(x, ast.Subscript) and ast.unparse(x.slice).replace(" ", "").endswith(".dimension") for st in node.orelse for x in ast.walk(st))
-            conv = neg and pos
-    if not conv:
+    if not _splat_convention(prog):
         rep.defer(AnalysisError("conversions._splat no longer files denominators under dimension**-1 and numerators under dimension (anchor of R05.11 moved)"))
+        rep.rules[rid].floor = 0
         return
     n = 0
     for q in ("conversions._match_factors", "conversions._cancel_factors"):
         fi = prog.func(q)
-        for node in ast.walk(fi.node):
-            if not isinstance(node, ast.IfExp):
+        for label, exps, want in (("Number (dimensionless numerator)", (0, 0, 0), 1), ("a numerator base dimension", (0, 1, 0), 1),
+                                  ("the inverse of a base dimension (denominator)", (0, -1, 0), -1)):
+            sp = SignProbe(helpers, exps)
+            try:
+                sp.block(fi.node.body, {})  # type: ignore[attr-defined]
+            except _NoVerdict as ex:
+                rep.defer(AnalysisError(f"{q}: cannot follow the sign computation ({ex})"))
                 continue
-            arms = (ast.unparse(node.body), ast.unparse(node.orelse))
-            if arms not in (("-1", "1"), ("1", "-1")):
+            sites = [(node, nm, v) for node, nm, v in sp.sites]
+            if not sites:
+                rep.defer(AnalysisError(f"{q}: no plan step (ratio, start, end, exponent) is built here"))
                 continue
-            dims = {x.id for x in ast.walk(node.test) if isinstance(x, ast.Name)} - set(helpers) - {"any", "all", "sum", "abs", "e", "len", "min", "max"}
-            gens = {g.target.id for x in ast.walk(node.test) if isinstance(x, (ast.GeneratorExp, ast.ListComp)) for g in x.generators if isinstance(g.target, ast.Name)}
-            dims -= gens
-            if len(dims) != 1:
-                rep.defer(AnalysisError(f"{q}: the sign test `{ast.unparse(node.test)[:60]}` does not read exactly one dimension"))
+            unknown = [s_ for s_ in sites if isinstance(s_[2], _NoVerdict)]
+            if unknown:
+                rep.defer(AnalysisError(f"{q}: the exponent `{unknown[0][1]}` of a plan step has no value the probe can follow ({unknown[0][2]})"))
                 continue
-            dvar = next(iter(dims))
             n += 1
-            for label, exps, want in (("Number (dimensionless numerator)", (0, 0, 0), 1), ("a numerator base dimension", (0, 1, 0), 1),
-                                      ("the inverse of a base dimension (denominator)", (0, -1, 0), -1)):
-                try:
-                    got = _probe(node, {dvar: "<dimension>"}, exps, helpers)
-                except _NoVerdict as ex:
-                    rep.defer(AnalysisError(f"{q}: cannot evaluate the sign test `{ast.unparse(node.test)[:60]}` ({ex})"))
-                    break
-                rep.check(rid, f"{q.split('.')[-1]}:{label.split(' (')[0]}", got == want,
-                          f"{q} applies a factor filed under {label} with exponent {got}, but _splat files it there as a factor of exponent "
-                          f"{want:+d}: its ratio is inverted (180 deg/s -> 10313 rad/s; 1 deg/s < 1 rad/s is False)", fi.where(node))
-    if n < 2:
-        rep.defer(AnalysisError("conversions: expected the `-1 if <dimension test> else 1` sign of _match_factors and _cancel_factors"))
+            bad = [s_ for s_ in sites if s_[2] != want]
+            rep.check(rid, f"{q.split('.')[-1]}:{label.split(' (')[0]}", not bad,
+                      f"{q} applies a factor filed under {label} with exponent {bad[0][2] if bad else ''}, but _splat files it there as a factor of "
+                      f"exponent {want:+d}: its ratio is inverted (180 deg/s -> 10313 rad/s; 1 deg/s < 1 rad/s is False)",
+                      fi.where(bad[0][0] if bad else None))
+    if n < 6:
+        rep.rules[rid].floor = min(rep.rules[rid].floor, n)
 
 
 def check_inline_paths(rep: Report, prog: Program, rid: str = "R05.10") -> None:
@@ -669,8 +796,17 @@ def check_inline_paths(rep: Report, prog: Program, rid: str = "R05.10") -> None:
                  "append in a forward loop (or one comprehension)", fi.where())
         return
     target, _, elt, loop = sites[0]
+    unpack: Optional[ast.stmt] = None
+    if isinstance(target, ast.Name) and loop is not None:
+        # `for step in plan: ratio, start, end, exponent = step`
+        for st in loop.body:
+            if isinstance(st, ast.Assign) and len(st.targets) == 1 and isinstance(st.targets[0], ast.Tuple) and isinstance(st.value, ast.Name) \
+                    and st.value.id == target.id:
+                unpack, target = st, st.targets[0]
+                break
     if not (isinstance(target, ast.Tuple) and len(target.elts) == 4 and all(isinstance(x, ast.Name) for x in target.elts)):
         rep.defer(AnalysisError("_inline_paths: the loop does not unpack (ratio, start, end, exponent)"))
+        rep.rules[rid].floor = 0
         return
     ratio, _, _, exponent = (x.id for x in target.elts)  # type: ignore[union-attr]
     ok = isinstance(elt, ast.Tuple) and len(elt.elts) == 3 and isinstance(elt.elts[0], ast.Name) and elt.elts[0].id == ratio \
@@ -678,7 +814,7 @@ def check_inline_paths(rep: Report, prog: Program, rid: str = "R05.10") -> None:
     rep.check(rid, "_inline_paths:own-ratio-and-exponent", ok,
               f"the plan step built for a rough step is {ast.unparse(elt)[:80]}: it must carry that step's own ratio and exponent", fi.where(elt))
     if loop is not None:
-        body_nodes = [x for st in loop.body for x in ast.walk(st)]
+        body_nodes = [x for st in loop.body if st is not unpack for x in ast.walk(st)]
         rebound = sorted({x.id for x in body_nodes if isinstance(x, ast.Name) and isinstance(x.ctx, ast.Store) and x.id in (ratio, exponent)})
         rep.check(rid, "_inline_paths:ratio-unmodified", not rebound,
                   f"{', '.join(rebound)} rebound inside the loop before the step is built", fi.where(loop))
@@ -728,8 +864,24 @@ def check_match_direction(rep: Report, prog: Program, rid: str = "R05.9") -> Non
         if isinstance(n, ast.Assign) and len(n.targets) == 1 and isinstance(n.targets[0], ast.Name) and isinstance(n.value, ast.Call) \
                 and ast.unparse(n.value.func) == "_splat" and n.value.args and isinstance(n.value.args[0], ast.Name) and n.value.args[0].id in ps[:2]:
             side[n.targets[0].id] = "start" if n.value.args[0].id == ps[0] else "end"
-    calls = [c for c in ast.walk(fi.node) if isinstance(c, ast.Call) and ast.unparse(c.func) == "_match_factors" and len(c.args) == 2
-             and all(isinstance(a, ast.Name) and a.id in side for a in c.args)]
+    def match_calls(host: "FuncInfo", sd: Dict[str, str]) -> List[ast.Call]:
+        return [c for c in ast.walk(host.node) if isinstance(c, ast.Call) and ast.unparse(c.func) == "_match_factors" and len(c.args) == 2
+                and all(isinstance(a, ast.Name) and a.id in sd for a in c.args)]
+    calls = match_calls(fi, side)
+    if len(calls) < 2:
+        # the pairing stages may live in a helper that is handed both splatted sides
+        for c in ast.walk(fi.node):
+            if not (isinstance(c, ast.Call) and isinstance(c.func, ast.Name) and f"conversions.{c.func.id}" in prog.functions):
+                continue
+            h = prog.functions[f"conversions.{c.func.id}"]
+            hp = h.params()
+            sd = {hp[i]: side[a.id] for i, a in enumerate(c.args) if isinstance(a, ast.Name) and a.id in side and i < len(hp)}
+            sd.update({k.arg: side[k.value.id] for k in c.keywords if k.arg and isinstance(k.value, ast.Name) and k.value.id in side})
+            if len(set(sd.values())) == 2 and len(match_calls(h, sd)) >= 2 and not any(p_ in {x.id for n in ast.walk(h.node) for x in ast.walk(n)
+                                                                                     if isinstance(x, ast.Name) and isinstance(x.ctx, ast.Store)} for p_ in sd):
+                fi, side = h, sd
+                calls = match_calls(h, sd)
+                break
     if len(calls) < 2:
         raise AnalysisError("conversions._plan_conversion: expected _match_factors to be called in both directions over the _splat()ed sides")
     for c in calls:
